@@ -237,7 +237,9 @@ def explore(tier, seed, programs=None, with_traces=True, with_sections=True):
 
     def work(j):
         c, p, runs, tf = j
-        rc, res, tail, dt = run_program(bins[c][1], p, runs)
+        # the limit is a last resort (deadlocks and livelocks are detected by the harness itself: no runnable thread / step
+        # budget); it grows with the number of executions asked for (thorough: 13x more, and S=8 executions have ~5*10^4 events)
+        rc, res, tail, dt = run_program(bins[c][1], p, runs, timeout=240 if tier == "quick" else 3000)
         ntr, rej, nh, lrej = lean_accept(tf) if with_traces else (0, [], 0, [])
         nx, nsec, sbad = lean_sections(tf + ".sec") if (with_traces and with_sections) else (0, 0, [])
         for f_ in (tf, tf + ".sec"):
